@@ -28,6 +28,9 @@ CHECK_PROFILES = {
     # assertions only (oracle comparisons; memory safety checked elsewhere)
     "assert": [],
     "leak": ["--bounds-check", "--pointer-check", "--div-by-zero-check", "--memory-leak-check"],
+    # leak + array bounds without the pointer checks: for code that walks the variable-size SF_CUES block, where CBMC's
+    # typed-access check fails on the (smaller than SF_CUES) allocation and turns everything behind it UNKNOWN
+    "leak_np": ["--bounds-check", "--div-by-zero-check", "--memory-leak-check"],
 }
 
 # CBMC artefact (DESIGN 3.2): default argument promotion is not applied to the
@@ -500,7 +503,7 @@ def native_replay(ctx, h, values, outdir, extra_defines=(), expect_desc=None):
         return False, {"error": "native harness compile failed: " + err[-3000:], "cmd": " ".join(cmd)}
     env = dict(os.environ)
     env["VERIF_REPLAY_VALUES"] = valf
-    env["ASAN_OPTIONS"] = "exitcode=78:detect_leaks=%d:allocator_may_return_null=1:abort_on_error=0" % (1 if h.checks == "leak" else 0)
+    env["ASAN_OPTIONS"] = "exitcode=78:detect_leaks=%d:allocator_may_return_null=1:abort_on_error=0" % (1 if h.checks.startswith("leak") else 0)
     env["UBSAN_OPTIONS"] = "print_stacktrace=1:halt_on_error=1:exitcode=76"
     rc, out, err, wall, _, to = sh([exe], timeout=20, env=env)
     info = {"rc": rc, "timed_out": to, "stderr_tail": err[-1500:], "cmd": " ".join(cmd)}
@@ -679,7 +682,11 @@ def run_one(ctx, h, known_keys, replay_root):
             return r
         if unknown:
             r.status = "inconclusive"
-            r.detail = "%d obligations UNKNOWN (behind an unwinding bound): %s" % (len(unknown), unknown[0].get("description", "")[:120])
+            nerr = sum(1 for p in unknown if p["status"] == "ERROR")
+            if nerr:
+                r.detail = "no verdict for %d obligations (solver status ERROR: memory limit or solver failure), e.g. %s" % (len(unknown), unknown[0].get("description", "")[:100])
+            else:
+                r.detail = "%d obligations UNKNOWN (behind an unwinding bound): %s" % (len(unknown), unknown[0].get("description", "")[:120])
             return r
         if not r.witness_reached:
             r.status = "vacuous"
